@@ -8,6 +8,8 @@ import (
 	"fmt"
 	"sort"
 	"strings"
+	"testing/synctest"
+	"time"
 
 	"github.com/dgraph-io/badger/v4/pb"
 	"github.com/dgraph-io/badger/v4/trie"
@@ -338,5 +340,171 @@ func init() {
 			}
 			return fmt.Sprint(len(got)), "", ""
 		},
+	})
+}
+
+// c32side (E-enum, inside a bubble): what a subscriber receives when the database itself writes, and
+// when a Subscribe call is refused.  A healthy subscriber on prefix "k" / "m" is registered first.
+//   gc       commits with value-log values, then a forced value-log GC of the oldest files: the
+//            rewrite moves values, it commits nothing - the subscriber must get nothing more
+//   merge    a merge operator adds twice and is stopped (it writes the merged value back): the
+//            subscriber gets the two committed adds and nothing that nobody committed
+//   refused  a second Subscribe with a pattern that cannot be parsed is refused; it must leave nothing
+//            behind: 1100 later commits all return and all reach the healthy subscriber
+//   buffer   the caller re-uses its value buffer right after Commit has returned: the subscriber must
+//            get the committed value
+func init() {
+	registerEnum("c32side", func(e *enumCtx) {
+		for _, kind := range []string{"gc", "merge", "refused", "buffer"} {
+			kind := kind
+			e.do(kind, func() (c, d string) {
+				inBubble(e.t, func() {
+					dir := freshDir(e.j)
+					defer removeAll(dir)
+					o := smallOpts(dir)
+					o.ValueThreshold = 64
+					o.ValueLogMaxEntries = 2
+					o.NumLevelZeroTables, o.NumLevelZeroTablesStall = 1<<20, 1<<21
+					if kind != "gc" {
+						// in memory: no periodic timers, so a wedged publisher shows as a deadlock of the bubble
+						o.InMemory, o.Dir, o.ValueDir = true, "", ""
+					}
+					db := mustOpen(o)
+					defer func() {
+						_ = db.Close()
+					}()
+					type got struct {
+						key, val string
+						ver      uint64
+					}
+					var recv []got
+					ctx, cancel := context.WithCancel(context.Background())
+					subDone := false
+					go func() {
+						_ = db.Subscribe(ctx, func(kvs *KVList) error {
+							for _, kv := range kvs.Kv {
+								if !bytes.HasPrefix(kv.Key, []byte("!badger!")) {
+									recv = append(recv, got{string(kv.Key), string(kv.Value), kv.Version})
+								}
+							}
+							return nil
+						}, []pb.Match{{Prefix: []byte("k")}, {Prefix: []byte("m")}})
+						subDone = true
+					}()
+					synctest.Wait()
+					stop := func() {
+						cancel()
+						synctest.Wait()
+						_ = subDone
+					}
+					defer stop()
+					dup := func() string {
+						seen := map[string]int{}
+						for _, g := range recv {
+							seen[fmt.Sprintf("%s@%d", g.key, g.ver)]++
+						}
+						for k, n := range seen {
+							if n > 1 {
+								return fmt.Sprintf("%s delivered %d times", k, n)
+							}
+						}
+						return ""
+					}
+					switch kind {
+					case "gc":
+						n := 8
+						for i := 0; i < n; i++ {
+							k := fmt.Sprintf("k%02d", i)
+							if err := db.Update(func(txn *Txn) error { return txn.Set([]byte(k), val(k+"|", 200)) }); err != nil {
+								panic(err)
+							}
+						}
+						synctest.Wait()
+						if len(recv) != n {
+							c, d = "subscriber-count", fmt.Sprintf("%d commits, %d KVs delivered", n, len(recv))
+							return
+						}
+						for round := 0; round < 3; round++ {
+							db.vlog.filesLock.RLock()
+							fids := db.vlog.sortedFids()
+							db.vlog.filesLock.RUnlock()
+							db.vlog.discardStats.Update(fids[0], 1<<30)
+							if err := db.RunValueLogGC(0.01); err != nil && err != ErrNoRewrite && err != ErrRejected {
+								c, d = "gc-error", err.Error()
+								return
+							}
+							synctest.Wait()
+						}
+						if len(recv) != n {
+							c, d = "subscriber-internal-write-delivered/gc", fmt.Sprintf("after %d commits (all delivered) a value-log GC ran and no commit: the subscriber received %d more KVs (%s; last: %v): the rewrite's write-back is published as if it were a commit", n, len(recv)-n, dup(), recv[len(recv)-1])
+						}
+					case "merge":
+						op := db.GetMergeOperator([]byte("m"), mergeConcat, time.Hour)
+						_ = op.Add([]byte("<1>"))
+						_ = op.Add([]byte("<2>"))
+						synctest.Wait()
+						before := len(recv)
+						op.Stop()
+						synctest.Wait()
+						if before != 2 || len(recv) != 2 {
+							c, d = "subscriber-internal-write-delivered/merge", fmt.Sprintf("two Adds were committed (%d KVs delivered); stopping the merge operator (it writes the merged value back) delivered %d more: %v", before, len(recv)-before, recv)
+						}
+					case "refused":
+						before := db.pub.noOfSubscribers()
+						err := db.Subscribe(context.Background(), func(*KVList) error { return nil }, []pb.Match{{Prefix: []byte("k")}, {Prefix: []byte("k"), IgnoreBytes: "x"}})
+						if err == nil {
+							c, d = "subscribe-accepted", "a pattern with IgnoreBytes \"x\" was accepted"
+							return
+						}
+						if after := db.pub.noOfSubscribers(); after != before {
+							// (not driven to the wedge itself: 1000 commits later the publisher blocks on the
+							// left-over subscriber's full channel with its lock held, and neither a commit nor
+							// Close returns any more)
+							c, d = "subscriber-left-behind-by-refused-subscribe", fmt.Sprintf("Subscribe was refused (%v) but the publisher now has %d subscribers instead of %d: nobody will ever read the left-over subscriber's channel (1000 entries), and its closer is never released, so the publisher and Close block for ever", err, after, before)
+							// remove it again so that the bubble can be torn down
+							db.pub.Lock()
+							for id, sub := range db.pub.subscribers {
+								if id != 0 { // id 0 is the healthy subscriber
+									sub.subCloser.Done()
+									delete(db.pub.subscribers, id)
+								}
+							}
+							db.pub.Unlock()
+							return
+						}
+						for i := 0; i < 1100; i++ {
+							k := fmt.Sprintf("k%04d", i)
+							if err := db.Update(func(txn *Txn) error { return txn.Set([]byte(k), []byte("v")) }); err != nil {
+								panic(err)
+							}
+						}
+						synctest.Wait()
+						if len(recv) != 1100 {
+							c, d = "subscriber-count", fmt.Sprintf("1100 commits, %d KVs delivered", len(recv))
+						}
+					case "buffer":
+						bad := 0
+						for i := 0; i < 20; i++ {
+							buf := []byte("AAAAAAAA")
+							k := fmt.Sprintf("k%02d", i)
+							if err := db.Update(func(txn *Txn) error { return txn.Set([]byte(k), buf) }); err != nil {
+								panic(err)
+							}
+							copy(buf, "BBBBBBBB") // the transaction is over: the buffer is the caller's again
+							synctest.Wait()
+						}
+						for _, g := range recv {
+							if g.val != "AAAAAAAA" {
+								bad++
+							}
+						}
+						if bad > 0 || len(recv) != 20 {
+							c, d = "subscriber-value-not-committed", fmt.Sprintf("20 commits of value AAAAAAAA, the buffer re-used after each Commit returned: %d KVs delivered, %d of them with a value that was never committed (e.g. %v)", len(recv), bad, recv[0])
+						}
+					}
+				})
+				return
+			})
+		}
 	})
 }
